@@ -1,2 +1,401 @@
-From Coq Require Import QArith List Bool NArith.
+(** Proofs about the simulator model (C04).  General lemmas are proved for ANY facts record that
+    satisfies [good_facts]; PropsC04.v instantiates them at the facts regenerated from /repo. *)
+From Coq Require Import QArith List Bool NArith Lia Lqa.
 From Sim Require Import Integrator Simulator Protocol.
+Import ListNotations.
+Open Scope Q_scope.
+
+(** * boolean comparisons *)
+Lemma Qltb_iff a b : Qltb a b = true <-> a < b.
+Proof.
+  unfold Qltb. rewrite negb_true_iff. split; intro H.
+  - apply Qnot_le_lt. intro L. apply Qle_bool_iff in L. congruence.
+  - destruct (Qle_bool b a) eqn:E; [|reflexivity]. apply Qle_bool_iff in E. exfalso. lra.
+Qed.
+
+Lemma Qltb_false a b : Qltb a b = false <-> b <= a.
+Proof.
+  split; intro H.
+  - destruct (Qlt_le_dec a b) as [L|L]; [|exact L]. apply Qltb_iff in L. congruence.
+  - destruct (Qltb a b) eqn:E; [|reflexivity]. apply Qltb_iff in E. exfalso. lra.
+Qed.
+
+Lemma Qle_bool_false a b : Qle_bool a b = false <-> b < a.
+Proof.
+  split; intro H.
+  - apply Qnot_le_lt. intro L. apply Qle_bool_iff in L. congruence.
+  - destruct (Qle_bool a b) eqn:E; [|reflexivity]. apply Qle_bool_iff in E. exfalso. lra.
+Qed.
+
+Lemma Qeq_bool_false a b : Qeq_bool a b = false <-> ~ a == b.
+Proof.
+  split; intro H.
+  - intro E. apply Qeq_bool_iff in E. congruence.
+  - destruct (Qeq_bool a b) eqn:E; [|reflexivity]. apply Qeq_bool_iff in E. contradiction.
+Qed.
+
+(** * strictly increasing lists *)
+Fixpoint incr (l : list Q) : Prop :=
+  match l with
+  | [] => True
+  | x :: r => (forall y, In y r -> x < y) /\ incr r
+  end.
+
+Lemma incrb_incr l : incrb l = true -> incr l.
+Proof.
+  induction l as [|x r IH]; [exact (fun _ => I)|].
+  cbn [incrb]. destruct r as [|y r'].
+  - intros _. cbn. split; [intros ? []|exact I].
+  - intro H. apply andb_true_iff in H. destruct H as [Hxy Hr]. apply Qltb_iff in Hxy.
+    specialize (IH Hr). split; [|exact IH].
+    intros z [<-|Hz]; [exact Hxy|]. destruct IH as [Hy _]. specialize (Hy z Hz). lra.
+Qed.
+
+Lemma incr_incrb l : incr l -> incrb l = true.
+Proof.
+  induction l as [|x r IH]; [reflexivity|].
+  intros [Hx Hr]. cbn [incrb]. destruct r as [|y r']; [reflexivity|].
+  apply andb_true_iff. split; [apply Qltb_iff, Hx; left; reflexivity|exact (IH Hr)].
+Qed.
+
+Lemma incr_app l1 l2 :
+  incr (l1 ++ l2) <-> incr l1 /\ incr l2 /\ (forall a b, In a l1 -> In b l2 -> a < b).
+Proof.
+  induction l1 as [|x r IH]; cbn [app incr].
+  - split; [intro H; repeat split; [exact H | intros ? ? []] | intros (_ & H & _); exact H].
+  - rewrite IH. split.
+    + intros (Hx & Hr & H2 & H12). repeat split; try assumption.
+      * intros y Hy. apply Hx. apply in_or_app. left. exact Hy.
+      * intros a b [<-|Ha] Hb; [apply Hx; apply in_or_app; right; exact Hb | exact (H12 a b Ha Hb)].
+    + intros ((Hx & Hr) & H2 & H12). repeat split; try assumption.
+      * intros y Hy. apply in_app_or in Hy. destruct Hy as [Hy|Hy]; [exact (Hx y Hy)|apply H12; [left; reflexivity|exact Hy]].
+      * intros a b Ha Hb. apply H12; [right; exact Ha|exact Hb].
+Qed.
+
+Lemma incr_map (f : Q -> Q) l :
+  (forall a b, a < b -> f a < f b) -> incr l -> incr (map f l).
+Proof.
+  intros Hf. induction l as [|x r IH]; [exact (fun H => H)|].
+  intros [Hx Hr]. cbn. split; [|exact (IH Hr)].
+  intros y Hy. apply in_map_iff in Hy. destruct Hy as (z & <- & Hz). apply Hf, Hx, Hz.
+Qed.
+
+Lemma incr_filter (f : Q -> bool) l : incr l -> incr (filter f l).
+Proof.
+  induction l as [|x r IH]; [exact (fun H => H)|].
+  intros [Hx Hr]. cbn. destruct (f x); [|exact (IH Hr)].
+  split; [|exact (IH Hr)]. intros y Hy. apply filter_In in Hy. apply Hx, Hy.
+Qed.
+
+(** * last element *)
+Lemma lastq_app l x d : lastq (l ++ [x]) d = x.
+Proof.
+  induction l as [|y r IH]; [reflexivity|].
+  cbn [app lastq]. destruct (r ++ [x]) eqn:E; [destruct r; discriminate|]. exact IH.
+Qed.
+
+Lemma lastq_In l d : l <> [] -> In (lastq l d) l.
+Proof.
+  induction l as [|y r IH]; [congruence|]. intros _.
+  destruct r as [|z r']; [left; reflexivity|].
+  right. change (lastq (y :: z :: r') d) with (lastq (z :: r') d). apply IH. discriminate.
+Qed.
+
+Lemma lastq_cons x l d : l <> [] -> lastq (x :: l) d = lastq l d.
+Proof. destruct l; [congruence|reflexivity]. Qed.
+
+Lemma lastq_default l d d' : l <> [] -> lastq l d = lastq l d'.
+Proof.
+  induction l as [|y r IH]; [congruence|]. intros _.
+  destruct r as [|z r']; [reflexivity|].
+  change (lastq (z :: r') d = lastq (z :: r') d'). apply IH. discriminate.
+Qed.
+
+Lemma lastq_map (f : Q -> Q) l d : lastq (map f l) (f d) = f (lastq l d).
+Proof.
+  induction l as [|y r IH]; [reflexivity|].
+  destruct r as [|z r']; [reflexivity|]. exact IH.
+Qed.
+
+Lemma lastq_map_fst {A} (g : Q -> A) l d : lastq (map fst (map (fun t => (t, g t)) l)) d = lastq l d.
+Proof. rewrite map_map. cbn. rewrite map_id. reflexivity. Qed.
+
+Lemma exists_last' (l : list Q) : l <> [] -> exists pre x, l = pre ++ [x].
+Proof. intro H. destruct (exists_last H) as (pre & x & E). eauto. Qed.
+
+(** the last element of a list dominates a strictly increasing list *)
+Lemma incr_last_max pre x : incr (pre ++ [x]) -> forall a, In a pre -> a < x.
+Proof. intros H a Ha. apply incr_app in H. destruct H as (_ & _ & H). apply H; [exact Ha|left; reflexivity]. Qed.
+
+Lemma filter_last (f : Q -> bool) l d :
+  l <> [] -> f (lastq l d) = true -> filter f l <> [] /\ lastq (filter f l) d = lastq l d.
+Proof.
+  induction l as [|y r IH]; [congruence|]. intros _ Hf.
+  destruct r as [|z r'].
+  - cbn in *. rewrite Hf. split; [discriminate|reflexivity].
+  - change (lastq (y :: z :: r') d) with (lastq (z :: r') d) in *.
+    destruct (IH ltac:(discriminate) Hf) as [Hne Hl].
+    cbn [filter]. destruct (f y).
+    + split; [discriminate|]. rewrite lastq_cons; [exact Hl|exact Hne].
+    + split; [exact Hne|exact Hl].
+Qed.
+
+Lemma incr_bounds h rest :
+  incr (h :: rest) -> rest <> [] ->
+  forall t, In t (h :: rest) -> h <= t /\ t <= lastq rest h.
+Proof.
+  intros [Hh Hr] Hne t Ht.
+  destruct (exists_last' rest Hne) as (pre & x & E). subst rest. rewrite lastq_app.
+  destruct Ht as [<-|Ht].
+  - split; [lra|]. specialize (Hh x). assert (h < x) by (apply Hh, in_or_app; right; left; reflexivity). lra.
+  - split; [specialize (Hh t Ht); lra|].
+    apply in_app_or in Ht. destruct Ht as [Ht|[<-|[]]]; [|lra].
+    pose proof (incr_last_max pre x Hr t Ht). lra.
+Qed.
+
+Section SimProofs.
+  Variables Y P U O : Type.
+  Variable flow : P -> Q -> Y -> Q -> Y.
+  Variable solve_ok : P -> Q -> Y -> Q -> bool.
+  Variable conv : Y -> Y -> bool.
+  Variable pupd : P -> U -> P.
+  Variable yovr : Y -> O -> Y.
+  Variable fx : sim_facts.
+
+  Notation sim := (sim Y P).
+  Notation solve_ivp := (solve_ivp Y P flow solve_ok).
+  Notation integrate_time_course := (integrate_time_course Y P flow solve_ok).
+  Notation integrate := (integrate Y P flow solve_ok).
+  Notation simulate := (simulate Y P flow solve_ok fx).
+  Notation simulate_time_course := (simulate_time_course Y P flow solve_ok fx).
+  Notation index_of := (index_of Y P).
+  Notation prior_t_end := (prior_t_end Y P).
+  Notation reached := (reached Y P).
+  Notation has_errors := (has_errors Y P).
+
+  (** what the theorems need from the regenerated facts *)
+  Record good_facts : Prop := {
+    g_sim_frame : f_sim_frame fx = FrameAbs;
+    g_sim_cmp : f_sim_cmp fx = CmpLe;
+    g_tc_frame : f_tc_frame fx = FrameAbs;
+    g_tc_cmp : f_tc_cmp fx = CmpLe;
+    g_tc_keep : f_tc_keep fx = CmpGe;
+    g_skip_sim : f_skip_sim fx = true;
+    g_skip_tc : f_skip_tc fx = true;
+    g_ptc_cmp : f_ptc_cmp fx = CmpLe;
+    g_win_lo : f_win_lo fx = CmpGt;
+    g_win_hi : f_win_hi fx = CmpLe;
+    g_updvar_keeps : f_updvar_keeps fx = true
+  }.
+
+  (** ** the solver's contract on a forward span *)
+  Lemma solve_ivp_forward p y0 h rest :
+    rest <> [] -> h < lastq rest h ->
+    solve_ivp p y0 (h :: rest) =
+      if incrb (h :: rest)
+      then if solve_ok p h y0 (lastq rest h)
+           then IOk (map (fun t => (t, flow p h y0 (t - h))) (h :: rest))
+           else IFail
+      else IRaiseValue.
+  Proof.
+    intros Hne Hlt. unfold Integrator.solve_ivp.
+    rewrite (lastq_cons h rest h Hne).
+    set (tf := lastq rest h) in *.
+    assert (Hmin : Qmin' h tf = h) by (unfold Qmin'; destruct (Qle_bool h tf) eqn:E; [reflexivity|apply Qle_bool_false in E; lra]).
+    assert (Hmax : Qmax' h tf = tf) by (unfold Qmax'; destruct (Qle_bool h tf) eqn:E; [reflexivity|apply Qle_bool_false in E; lra]).
+    rewrite Hmin, Hmax.
+    destruct (incrb (h :: rest)) eqn:Hin.
+    - assert (Hw : forallb (fun t => Qle_bool h t && Qle_bool t tf) (h :: rest) = true).
+      { apply forallb_forall. intros t Ht.
+        destruct (incr_bounds h rest (incrb_incr _ Hin) Hne t Ht) as [A B].
+        apply andb_true_iff. split; apply Qle_bool_iff; assumption. }
+      rewrite Hw. cbn [negb andb].
+      rewrite andb_false_r. cbn [negb].
+      assert (E1 : Qltb tf h = false) by (apply Qltb_false; lra). rewrite E1. cbn [andb].
+      assert (E2 : Qeq_bool h tf = false) by (apply Qeq_bool_false; lra). rewrite E2. reflexivity.
+    - destruct (negb (forallb (fun t => Qle_bool h t && Qle_bool t tf) (h :: rest))); [reflexivity|].
+      assert (E0 : Qltb h tf = true) by (apply Qltb_iff; exact Hlt). rewrite E0. reflexivity.
+  Qed.
+
+  Definition shiftv (s : sim) : Q := match s_shift s with None => 0 | Some x => x end.
+
+  Lemma sub_shift_v s t : sub_shift (s_shift s) t == t - shiftv s.
+  Proof. unfold sub_shift, shiftv. destruct (s_shift s); lra. Qed.
+  Lemma add_shift_v s t : add_shift (s_shift s) t == t + shiftv s.
+  Proof. unfold add_shift, shiftv. destruct (s_shift s); lra. Qed.
+
+  (** ** the invariant of every reachable state (no steady-state run in the history) *)
+  Definition Inv (s : sim) : Prop :=
+    match s_vars s with
+    | None => s_shift s = None /\ i_t0 (s_int s) == 0
+    | Some segs =>
+        exists segs' sg t y, segs = segs' ++ [sg ++ [(t, y)]]
+          /\ incr (index_of s) /\ i_t0 (s_int s) + shiftv s == t
+    end.
+
+  Lemma last_row_snoc (segs' : list (segment Y)) sg (r : Q * Y) :
+    last_row Y (segs' ++ [sg ++ [r]]) = Some r.
+  Proof. unfold last_row. rewrite rev_unit. rewrite rev_unit. reflexivity. Qed.
+
+  Lemma index_snoc (segs' : list (segment Y)) sg t (y : Y) :
+    concat (map (seg_index Y) (segs' ++ [sg ++ [(t, y)]]))
+    = (concat (map (seg_index Y) segs') ++ map fst sg) ++ [t].
+  Proof.
+    rewrite map_app, concat_app. cbn. unfold seg_index. rewrite map_app. cbn.
+    rewrite app_nil_r, app_assoc. reflexivity.
+  Qed.
+
+  (** what the invariant says about [prior_t_end] *)
+  Lemma Inv_prior s :
+    Inv s ->
+    exists r, prior_t_end s = Some r /\ i_t0 (s_int s) + shiftv s == r /\ incr (index_of s)
+              /\ (forall a, In a (index_of s) -> a <= r)
+              /\ (s_vars s = None -> s_shift s = None /\ r = 0)
+              /\ (s_vars s <> None -> exists pre, index_of s = pre ++ [r]).
+  Proof.
+    unfold Inv, Simulator.prior_t_end, Simulator.index_of. destruct (s_vars s) as [segs|] eqn:Ev.
+    - intros (segs' & sg & t & y & -> & Hinc & Ht0). exists t.
+      rewrite last_row_snoc. rewrite index_snoc in *.
+      repeat split; try assumption.
+      + intros a Ha. apply in_app_or in Ha. destruct Ha as [Ha|[<-|[]]]; [|lra].
+        pose proof (incr_last_max _ _ Hinc a Ha). lra.
+      + discriminate.
+      + discriminate.
+      + intros _. eexists. reflexivity.
+    - intros [Hs Ht0]. exists 0. unfold shiftv. rewrite Hs.
+      split; [reflexivity|]. split; [lra|]. split; [exact I|]. split; [intros a []|].
+      split; [intros _; split; reflexivity|congruence].
+  Qed.
+
+  (** ** one call of the integrator on a forward stretch, followed by [_handle_simulation_results] *)
+  Definition tp_eff (t0 : Q) (tp : list Q) : list Q :=
+    match tp with [] => [] | t :: _ => if negb (Qeq_bool t t0) then t0 :: tp else tp end.
+
+  Lemma itc_unfold p ig tp :
+    tp <> [] ->
+    integrate_time_course p ig tp =
+      match solve_ivp p (i_y0 ig) (tp_eff (i_t0 ig) tp) with
+      | IOk tc => (mkInteg (lastq (map fst tc) (i_t0 ig)) (last (map snd tc) (i_y0 ig)) (i_orig ig), IOk tc)
+      | r => (ig, r)
+      end.
+  Proof. destruct tp; [congruence|reflexivity]. Qed.
+
+  Lemma tp_eff_shape t0 tp :
+    tp <> [] ->
+    exists h rest, tp_eff t0 tp = h :: rest /\ h == t0
+      /\ ((h = t0 /\ rest = tp /\ forall d, ~ hd d tp == t0) \/ tp = h :: rest).
+  Proof.
+    destruct tp as [|t r]; [congruence|]. intros _. unfold tp_eff.
+    destruct (Qeq_bool t t0) eqn:E; cbn [negb].
+    - exists t, r. split; [reflexivity|]. split; [apply Qeq_bool_iff; exact E|right; reflexivity].
+    - exists t0, (t :: r). split; [reflexivity|]. split; [reflexivity|]. left.
+      split; [reflexivity|]. split; [reflexivity|]. intros d. cbn. apply Qeq_bool_false. exact E.
+  Qed.
+
+  (** the state after an accepted integration: rows [(t + shift, flow ...)] for the points after the first *)
+  Definition new_rows (s : sim) (h : Q) (pts : list Q) : segment Y :=
+    map (fun t => (add_shift (s_shift s) t, flow (s_mp s) h (i_y0 (s_int s)) (t - h))) pts.
+
+  Definition pars_list (s : sim) : list P := match s_pars s with None => [] | Some l => l end.
+
+  Definition after_ok (s : sim) (h : Q) (rest : list Q) : sim :=
+    mkSim (s_y0 s)
+      (Some (match s_vars s with
+             | None => [new_rows s h (h :: rest)]
+             | Some l => l ++ [new_rows s h rest]
+             end))
+      (Some (pars_list s ++ [s_mp s])) (s_shift s) (s_errs s)
+      (mkInteg (lastq rest h) (flow (s_mp s) h (i_y0 (s_int s)) (lastq rest h - h)) (i_orig (s_int s)))
+      (s_mp s).
+
+  Definition after_fail (s : sim) : sim :=
+    mkSim (s_y0 s) (s_vars s) (s_pars s) (s_shift s) (s_errs s ++ [EIntegration]) (s_int s) (s_mp s).
+
+  Lemma last_map_snd (g : Q -> Y) l h d :
+    last (map snd (map (fun t => (t, g t)) (h :: l))) d = g (lastq l h).
+  Proof.
+    rewrite map_map. cbn [snd]. revert h. induction l as [|x r IH]; intro h; [reflexivity|].
+    change (last (map (fun t => g t) (h :: x :: r)) d) with (last (map (fun t => g t) (x :: r)) d).
+    rewrite IH. destruct r as [|z r']; [reflexivity|].
+    change (lastq (h :: x :: z :: r') h) with (lastq (z :: r') h).
+    change (lastq (x :: z :: r') h) with (lastq (z :: r') h).
+    change (lastq (z :: r') x) with (lastq (z :: r') x).
+    f_equal. apply lastq_default. discriminate.
+  Qed.
+
+  Lemma finish_itc (s : sim) tp h rest :
+    tp <> [] -> tp_eff (i_t0 (s_int s)) tp = h :: rest -> rest <> [] -> h < lastq rest h ->
+    finish Y P s (integrate_time_course (s_mp s) (s_int s) tp) true =
+      if incrb (h :: rest)
+      then if solve_ok (s_mp s) h (i_y0 (s_int s)) (lastq rest h)
+           then (after_ok s h rest, Done)
+           else (after_fail s, Done)
+      else (s, RaisedValue).
+  Proof.
+    intros Hne Heff Hr Hlt. rewrite (itc_unfold _ _ _ Hne), Heff.
+    rewrite (solve_ivp_forward _ _ _ _ Hr Hlt).
+    destruct s as [y0 vars pars sh errs ig mp]. cbn [s_int s_mp s_y0 s_vars s_pars s_shift s_errs] in *.
+    destruct (incrb (h :: rest)); [|reflexivity].
+    destruct (solve_ok mp h (i_y0 ig) (lastq rest h)); [|reflexivity].
+    unfold finish, set_int, handle_results, after_ok, new_rows, pars_list.
+    cbn [fst snd s_int s_mp s_y0 s_vars s_pars s_shift s_errs].
+    rewrite lastq_map_fst. rewrite (lastq_cons h rest _ Hr).
+    rewrite (lastq_default rest (i_t0 ig) h Hr).
+    rewrite last_map_snd.
+    f_equal. f_equal.
+    - rewrite map_map. cbn [fst snd]. destruct vars; reflexivity.
+  Qed.
+
+  Lemma new_rows_index s h pts : map fst (new_rows s h pts) = map (add_shift (s_shift s)) pts.
+  Proof. unfold new_rows. rewrite map_map. reflexivity. Qed.
+
+  Lemma concat_snoc (l : list (segment Y)) nr :
+    concat (map (seg_index Y) (l ++ [nr])) = concat (map (seg_index Y) l) ++ map fst nr.
+  Proof. rewrite map_app, concat_app. cbn [map concat]. rewrite app_nil_r. reflexivity. Qed.
+
+  Lemma after_ok_index s h rest :
+    index_of (after_ok s h rest) =
+      (match s_vars s with None => [add_shift (s_shift s) h] | Some _ => index_of s end)
+      ++ map (add_shift (s_shift s)) rest.
+  Proof.
+    unfold after_ok, Simulator.index_of. cbn [s_vars].
+    destruct (s_vars s) as [l|].
+    - rewrite concat_snoc, new_rows_index. reflexivity.
+    - change [new_rows s h (h :: rest)] with ([] ++ [new_rows s h (h :: rest)]).
+      rewrite concat_snoc, new_rows_index. reflexivity.
+  Qed.
+
+  Lemma after_ok_inv s h rest :
+    Inv s -> h == i_t0 (s_int s) -> rest <> [] -> incr (h :: rest) ->
+    Inv (after_ok s h rest)
+    /\ prior_t_end (after_ok s h rest) = Some (add_shift (s_shift s) (lastq rest h)).
+  Proof.
+    intros HI Hh Hne Hinc.
+    destruct (Inv_prior s HI) as (r & Hpr & Hsync & Hincr & Hmax & Hnone & Hsome).
+    destruct (exists_last' rest Hne) as (pre & x & ->). rewrite lastq_app.
+    assert (Hshape : exists segs' sg y,
+               s_vars (after_ok s h (pre ++ [x])) = Some (segs' ++ [sg ++ [(add_shift (s_shift s) x, y)]])).
+    { unfold after_ok. cbn [s_vars]. destruct (s_vars s) as [l|].
+      - exists l, (new_rows s h pre). eexists. unfold new_rows at 1. rewrite map_app. reflexivity.
+      - exists [], (new_rows s h (h :: pre)). eexists. cbn [app]. unfold new_rows at 1.
+        rewrite app_comm_cons, map_app. reflexivity. }
+    destruct Hshape as (segs' & sg & y & Hv).
+    assert (Hidx : incr (index_of (after_ok s h (pre ++ [x])))).
+    { rewrite after_ok_index. destruct Hinc as [Hh' Hr'].
+      assert (Hmono : forall a b, a < b -> add_shift (s_shift s) a < add_shift (s_shift s) b).
+      { intros a b Hab. rewrite !add_shift_v. lra. }
+      apply incr_app. split; [|split].
+      - destruct (s_vars s); [exact Hincr|]. cbn. split; [intros ? []|exact I].
+      - apply incr_map; assumption.
+      - intros a b Ha Hb. apply in_map_iff in Hb. destruct Hb as (t & <- & Ht).
+        specialize (Hh' t Ht). rewrite add_shift_v.
+        destruct (s_vars s) eqn:Ev.
+        + specialize (Hmax a Ha). lra.
+        + destruct Ha as [<-|[]]. rewrite add_shift_v. lra. }
+    split.
+    - unfold Inv. rewrite Hv. exists segs', sg, (add_shift (s_shift s) x), y.
+      split; [reflexivity|]. split; [exact Hidx|].
+      unfold after_ok at 1. cbn [s_int i_t0]. rewrite lastq_app.
+      unfold shiftv. unfold after_ok. cbn [s_shift]. fold (shiftv s). rewrite add_shift_v. lra.
+    - unfold Simulator.prior_t_end. rewrite Hv, last_row_snoc. reflexivity.
+  Qed.
